@@ -21,6 +21,7 @@ class Ctx:
         self.dt = bind.DT[beh["desc"].get("dt", "f64")]
         self.env = {}
         self.leaves = []
+        self.drift = []      # (predicted result class, observed result class) where the rewrite model (LORewrite) and the library differ
 
     def T(self, j, dtype=None):
         return bind.tensor(j, dtype or self.dt)
@@ -117,7 +118,7 @@ def run_behaviour(beh, loose=1.0, check_dtype=True, allow=None, stop_at_first=Fa
     """Execute one behaviour. Returns dict(steps=int, mismatches=[{step, act, msg}], maxerr, raised)"""
     warnings.simplefilter("ignore")
     ctx = Ctx(beh)
-    out = dict(steps=0, mismatches=[], maxerr=0.0, obs=0)
+    out = dict(steps=0, mismatches=[], maxerr=0.0, obs=0, drift=ctx.drift)
     for i, step in enumerate(beh["steps"]):
         act = step["act"]
         expect = step["expect"]
@@ -187,10 +188,29 @@ def _set_r(ctx, pairs):
     return pairs
 
 
+SPEC_NAME = dict(DenseLinearOperator="Dense", DiagLinearOperator="Diag", ConstantDiagLinearOperator="ConstDiag", IdentityLinearOperator="Identity",
+                 ZeroLinearOperator="Zero", ToeplitzLinearOperator="Toeplitz", TriangularLinearOperator="Tri", CholLinearOperator="Chol",
+                 RootLinearOperator="Root", LowRankRootLinearOperator="LowRankRoot", KroneckerProductLinearOperator="Kron",
+                 KroneckerProductTriangularLinearOperator="KronTri", KroneckerProductDiagLinearOperator="KronDiag",
+                 KroneckerProductAddedDiagLinearOperator="KronAddedDiag", SumKroneckerLinearOperator="SumKron", AddedDiagLinearOperator="AddedDiag",
+                 LowRankRootAddedDiagLinearOperator="LRRAddedDiag", SumLinearOperator="Sum", PsdSumLinearOperator="PsdSum",
+                 MatmulLinearOperator="Matmul", MulLinearOperator="Mul", ConstantMulLinearOperator="ConstMul", BlockDiagLinearOperator="BlockDiag",
+                 BlockInterleavedLinearOperator="BlockInter", SumBatchLinearOperator="SumBatch", BatchRepeatLinearOperator="BatchRepeat",
+                 CatLinearOperator="Cat", InterpolatedLinearOperator="Interp", MaskedLinearOperator="Masked", PermutationLinearOperator="Perm",
+                 TransposePermutationLinearOperator="TransPerm", KernelLinearOperator="Kernel", UserOp="User")
+
+
 @action("add")
 def _add(ctx, step):
     a, b = ctx.env["a"], ctx.env["b"]
-    return _set_r(ctx, [("a + b", a + b), ("a.add(b)", a.add(b)), ("torch.add(a, b)", torch.add(a, b))])
+    r = a + b
+    pred = step.get("arg")
+    if isinstance(pred, list) and pred and isinstance(pred[0], str) and pred[0] != "?":
+        # drift of the rewrite-rule model (information only; an expanded operand may legitimately appear as BatchRepeat)
+        obs = SPEC_NAME.get(type(r).__name__, type(r).__name__)
+        if obs != pred[0] and not (obs == "BatchRepeat" and list(r.shape) != list(a.shape)):
+            ctx.drift.append((pred[0], obs))
+    return _set_r(ctx, [("a + b", r), ("a.add(b)", a.add(b)), ("torch.add(a, b)", torch.add(a, b))])
 
 
 @action("sub")
